@@ -34,7 +34,7 @@ def run_strs(ctx, sequences, ops, sweeps, decodes, seed_offset=0, label="general
     exe = bin_path("strs")
     env = dict(os.environ, VERIF_SEED=str(ctx.seed + seed_offset))
     cmdline = f"VERIF_SEED={ctx.seed + seed_offset} {exe} {sequences} {ops} {sweeps} {decodes}"
-    p = subprocess.run([exe, str(sequences), str(ops), str(sweeps), str(decodes)], capture_output=True, text=True, env=env, timeout=7200)
+    p = run_harness([exe, str(sequences), str(ops), str(sweeps), str(decodes)], env, ctx)
     if p.returncode != 0:
         ctx.add_ob(f"run:strs-{label}", "build", False, f"rc={p.returncode}\n{p.stderr[-2000:]}\n{p.stdout[-1500:]}")
         ctx.oracle_failures.append({"engine": "strs", "what": "the harness process died (abort / crash inside the real crate)",
